@@ -6,8 +6,8 @@
                  tag 0 map, 1 filter, 2 flatMap, 3 persist
      history   : VList of VTup [VInt 0; k; j; kind; n] (kind 0 collect, 1 count, 2 take n, 3 first)
                           | VTup [VInt 1; k; j] unpersist | VTup [VInt 2; dt] advance | VTup [VInt 3; mi] gc
-   result = VList, per action, of VTup [result; user calls; managers] (ids relative to the counter at case start). *)
-From Coq Require Import ZArith List Bool.
+   result = VTup [ids per pipeline; VList, per action, of VTup [result; user calls; managers] (ids relative to the counter at case start). *)
+From Coq Require Import ZArith List Bool String.
 Require Import PV.Base.Val PV.Model.Cache.
 Import ListNotations.
 Open Scope Z_scope.
@@ -92,7 +92,7 @@ Definition enc_result (r : result Z) : val :=
   | RList l => vints l
   | RCount n => VInt n
   | RElem x => VTup [VInt x]
-  | RStop => VErr "StopIteration"
+  | RStop => VErr "StopIteration"%string
   | RNode j c => VTup [VInt (Z.of_nat j); vints c]
   | RUnit => VNone
   | RBad => VBad
@@ -104,10 +104,11 @@ Definition run (c : val) : val :=
       match opt_all dec_mgr ms, opt_all dec_ctx cs, opt_all dec_pipe ps, opt_all dec_action h with
       | Some mgrs, Some ctxs, Some specs, Some hist =>
           let w := World ctxs (fst (alloc_all 0 specs)) in
+          VTup [VList (map (fun P : pipeline Z => vints (p_src P :: map fst (p_nodes P))) (w_pipes w));
           VList (map (fun t : result Z * list (event Z) * state Z =>
                         let '(r, ev, st) := t in
                         VTup [enc_result r; VList (map enc_event ev); VList (map enc_mgr (s_mgrs st))])
-                     (run_history w (St 0 mgrs) hist))
+                     (run_history w (St 0 mgrs) hist))]
       | _, _, _, _ => VBad
       end
   | _ => VBad
